@@ -423,6 +423,29 @@ func genC18(t *rapid.T) c18Case {
 				}
 				return "options", true
 			}})
+			cands = append(cands, cand{"window-both-bounds-one-outside", func() (string, bool) {
+				// both bounds given; one (or both) lies outside 1..L; includes windows whose width equals the reference length
+				var s, e int
+				switch rapid.IntRange(0, 5).Draw(t, "shiftKind") {
+				case 0:
+					s, e = 0, L-1
+				case 1:
+					s, e = 2, L+1
+				case 2:
+					s, e = 0, L
+				case 3:
+					s, e = 1, L+1
+				case 4:
+					s, e = 0, rapid.IntRange(1, L).Draw(t, "eIn")
+				default:
+					s, e = rapid.IntRange(1, L).Draw(t, "sIn"), L+rapid.IntRange(1, 3).Draw(t, "eOut")
+				}
+				if e < 1 {
+					e = L + 1
+				}
+				extra = append(extra, "--start", strconv.Itoa(s), "--end", strconv.Itoa(e))
+				return "options", true
+			}})
 			if L >= 2 {
 				cands = append(cands, cand{"window-start-after-end", func() (string, bool) {
 					s := rapid.IntRange(2, L).Draw(t, "wStart")
